@@ -786,8 +786,12 @@ def replay(path):
 
 
 def main(argv):
-    import logging
+    import logging, os, time
     logging.disable(logging.CRITICAL)
+    # the process runs in a time zone that is not UTC (and has an odd offset): naive datetimes and offset-less strings denote UTC instants
+    # whatever the local zone is
+    os.environ['TZ'] = 'Asia/Kathmandu'
+    time.tzset()
     if len(argv) > 1 and argv[0] == '--replay':
         return replay(argv[1])
     ck = Check(PID, ANCHORS)
